@@ -864,6 +864,36 @@ def index_encoder_side(rep, quick):
             if kind != "ok" or not sel.startswith(head):
                 rep.violation("encoder(branch of %d atoms) does not start with %s: %s" % (k + 1, head, sel[:70]), {"n": k})
     rep.notes["encoder_index_values"] = len(ns)
+    # n far beyond what a molecule (or a 32-bit TLC integer) holds: the conversion functions themselves, compared
+    # digit by digit with the hexadecimal expansion - the code must stay the SHORTEST one (no leading zero digit)
+    # and decode to n; the all-n argument is IndexAbs, this binds the code to it near every power of 16
+    try:
+        from alphabets import IDX as _IDX
+        import selfies.grammar_rules as _gr
+        enc_f, dec_f = _gr.get_selfies_from_index, _gr.get_index_from_selfies
+    except Exception:
+        enc_f = dec_f = None
+        rep.notes["big_index_functions"] = "conversion functions not found under their names: skipped"
+    if enc_f is not None:
+        rngb = random.Random(seed() + 1616)
+        cand = set()
+        for k in range(1, 40):
+            for dlt in (-2, -1, 0, 1, 15, 16, 17):
+                cand.add(16 ** k + dlt)
+            cand.add(rngb.randrange(16 ** k, 16 ** (k + 1)))
+            cand.add(int("f" * k + "0" + "f" * rngb.randint(0, 3), 16))
+        for n_ in sorted(c for c in cand if c >= 0):
+            want = [_IDX[int(ch, 16)] for ch in "%x" % n_]
+            try:
+                got = list(enc_f(n_))
+                back = dec_f(*got)
+            except Exception as e:
+                rep.violation("index conversion raised %s for n = %d" % (type(e).__name__, n_), {"n": str(n_)})
+                continue
+            rep.traces += 1
+            if got != want or back != n_:
+                rep.violation("index code of n = %d (hex %x): %s, expected the %d digits %s; decodes to %s" % (
+                    n_, n_, "".join(got)[:120], len(want), "".join(want)[:120], back), {"n": str(n_)})
     # placement judged by TLC on moderate sizes (trace validation cost grows quadratically with the ring)
     small = [k for k in ns if k <= (40 if quick else 120)] + ([255, 256, 257] if not quick else [])
     smis = [gs.macrocycle(k) for k in small if k >= 1] + [gs.long_branch(k) for k in small]
